@@ -20,6 +20,7 @@ def check(run, tier):
         run.mc("MC_Twin", "MC_Twin_labware_d2", timeout=3000)
     r = rng("C04")
     progs = targeted.worklist_programs("evo") + targeted.shape_programs("fluent") + targeted.shape_programs("evo")
+    progs += targeted.round2_programs("evo") + targeted.round2_programs("fluent")
     n = 150 if q else 3000
     for i in range(n):
         dev = "evo" if i % 2 == 0 else "fluent"
